@@ -131,10 +131,6 @@ end
 section resume
 variable (epochs : Nat → List Item)
 
-/-- The user is iterating: iterator in hand, nothing pending. -/
-def Iterating (s : IState) : Prop :=
-  s.iterator.isSome = true ∧ s.pending = none ∧ s.initForSd = false ∧ s.handle = true
-
 /-- `sd = state_dict()`, then a NEW loader, `load_state_dict(sd)`, `iter()`: where the original is (mid-epoch
 checkpoint). -/
 theorem ideal_resume (s : ISys) (a : It) (hit : s.st.iterator = some a) (hnf : a.fin = false)
@@ -488,11 +484,10 @@ theorem ideal_rest (s : ISys) (e p : Nat) (h : At s e p false) (hp : p ≤ (epoc
   have hsplit : List.replicate ((epochs e).length - p + 1) Op.next =
       List.replicate ((epochs e).length - p) Op.next ++ [Op.next] := by
     rw [List.replicate_succ']
-  have hget : (epochs e)[(epochs e).length]? = none := List.getElem?_eq_none (Nat.le_refl _)
   generalize hs1 : Fac.exec (idealIC epochs) ifw s (List.replicate ((epochs e).length - p) .next) = s1 at *
   have hstep : Fac.step (idealIC epochs) ifw s1 .next =
       (.out .stop, ⟨{ s1.st with iterator := some ⟨e, (epochs e).length, true⟩ }, s1.toks, s1.nf⟩) := by
-    simp [Fac.step, Fac.next, h1, h4, idealIC, SDLApi.itNext, hget]
+    simp [Fac.step, Fac.next, h1, h4, idealIC, SDLApi.itNext]
   have htake : ((epochs e).drop p).take ((epochs e).length - p) = (epochs e).drop p := by
     apply List.take_of_length_le
     simp
@@ -563,6 +558,87 @@ theorem ideal_forLoops : ∀ (E : Nat) (s : ISys) (e p : Nat), At s e p true →
     · rw [obs_append, a1, b1]
     · rw [exec_append, b2, a3]
     · rw [wellUsed_append, a4, b3]; rfl
+
+/-- `E` complete loops and the `iter()` of the next one. -/
+theorem ideal_forLoops_iter : ∀ (E : Nat) (s : ISys) (e p : Nat), At s e p true →
+    Fac.obs (idealIC epochs) ifw s (forLoops epochs (e + 1) E ++ [.iter]) = forObss epochs (e + 1) E ++ [.ok] ∧
+      At (Fac.exec (idealIC epochs) ifw s (forLoops epochs (e + 1) E ++ [.iter])) (e + 1 + E) 0 false ∧
+      (Fac.exec (idealIC epochs) ifw s (forLoops epochs (e + 1) E ++ [.iter])).toks = s.toks ∧
+      wellUsed epochs s (forLoops epochs (e + 1) E ++ [.iter]) = true
+  | 0, s, e, p, h => ideal_iter_next epochs s e p h
+  | E + 1, s, e, p, h => by
+    obtain ⟨a1, a2, a3, a4⟩ := ideal_forLoop epochs s (e + 1) (ideal_iter_next epochs s e p h)
+    obtain ⟨b1, b2, b3, b4⟩ := ideal_forLoops_iter E _ (e + 1) _ a2
+    simp only [forLoops, forObss, List.append_assoc]
+    refine ⟨?_, ?_, ?_, ?_⟩
+    · rw [obs_append, a1, b1]
+    · rw [exec_append]
+      have : e + 1 + (E + 1) = e + 1 + 1 + E := by omega
+      rw [this]; exact b2
+    · rw [exec_append, b3, a3]
+    · rw [wellUsed_append, a4, b4]; rfl
+
+/-- A new loader over objects at stream 0: `E` complete loops and the `iter()` of the next one. -/
+theorem ideal_init_iter (E : Nat) :
+    Fac.obs (idealIC epochs) ifw (Sys.init (some 0)) (forLoops epochs 0 E ++ [.iter]) = forObss epochs 0 E ++ [.ok] ∧
+      At (Fac.exec (idealIC epochs) ifw (Sys.init (some 0)) (forLoops epochs 0 E ++ [.iter])) E 0 false ∧
+      (Fac.exec (idealIC epochs) ifw (Sys.init (some 0)) (forLoops epochs 0 E ++ [.iter])).toks = [] ∧
+      wellUsed epochs (Sys.init (some 0)) (forLoops epochs 0 E ++ [.iter]) = true := by
+  cases E with
+  | zero => exact ideal_iter_first epochs 0 [] 0
+  | succ E =>
+    obtain ⟨a1, a2, a3, a4⟩ := ideal_forLoop epochs (Sys.init (some 0)) 0 (ideal_iter_first epochs 0 [] 0)
+    obtain ⟨b1, b2, b3, b4⟩ := ideal_forLoops_iter epochs E _ 0 _ a2
+    simp only [forLoops, forObss, List.append_assoc]
+    refine ⟨?_, ?_, ?_, ?_⟩
+    · rw [obs_append, a1, b1]
+    · rw [exec_append]
+      have : E + 1 = 0 + 1 + E := by omega
+      rw [this]; exact b2
+    · rw [exec_append, b3, a3]; rfl
+    · rw [wellUsed_append, a4, b4]; rfl
+
+/-- `e` complete epochs, then `k` batches of epoch `e`. -/
+def prefixOps (e k : Nat) : List Op := forLoops epochs 0 e ++ [.iter] ++ List.replicate k .next
+
+theorem ideal_prefix (e k : Nat) (hk : k ≤ (epochs e).length) :
+    Fac.obs (idealIC epochs) ifw (Sys.init (some 0)) (prefixOps epochs e k) =
+        forObss epochs 0 e ++ [.ok] ++ outs ((epochs e).take k) ∧
+      At (Fac.exec (idealIC epochs) ifw (Sys.init (some 0)) (prefixOps epochs e k)) e k false ∧
+      (Fac.exec (idealIC epochs) ifw (Sys.init (some 0)) (prefixOps epochs e k)).toks = [] ∧
+      wellUsed epochs (Sys.init (some 0)) (prefixOps epochs e k) = true := by
+  obtain ⟨a1, a2, a3, a4⟩ := ideal_init_iter epochs e
+  obtain ⟨b1, b2, b3, b4⟩ := ideal_nexts epochs k _ e 0 a2 (by omega)
+  unfold prefixOps
+  refine ⟨?_, ?_, ?_, ?_⟩
+  · rw [obs_append, a1, b1]; simp
+  · rw [exec_append]; simpa using b2
+  · rw [exec_append, b3, a3]
+  · rw [wellUsed_append, a4, b4]; rfl
+
+/-- The rest of epoch `e` from position `k`, then `E` further complete epochs. -/
+def restOps (e k E : Nat) : List Op :=
+  List.replicate ((epochs e).length - k + 1) .next ++ forLoops epochs (e + 1) E
+
+def restObs (e k E : Nat) : List Obs :=
+  outs ((epochs e).drop k) ++ [.out .stop] ++ forObss epochs (e + 1) E
+
+theorem ideal_restOps (s : ISys) (e k E : Nat) (h : At s e k false) (hk : k ≤ (epochs e).length) :
+    Fac.obs (idealIC epochs) ifw s (restOps epochs e k E) = restObs epochs e k E ∧
+      wellUsed epochs s (restOps epochs e k E) = true := by
+  obtain ⟨a1, a2, _, a4⟩ := ideal_rest epochs s e k h hk
+  obtain ⟨b1, _, b3⟩ := ideal_forLoops epochs E _ e _ a2
+  unfold restOps restObs
+  exact ⟨by rw [obs_append, a1, b1], by rw [wellUsed_append, a4, b3]; rfl⟩
+
+/-- `state_dict()` while iterating leaves the loader where it is. -/
+theorem at_stateDict (s : ISys) (e p : Nat) (f : Bool) (h : At s e p f) :
+    At (Fac.exec (idealIC epochs) ifw s [.stateDict]) e p f := by
+  obtain ⟨h1, h2, h3, h4⟩ := h
+  rcases s with ⟨⟨w, it, pd, fl, hd⟩, tk, n⟩
+  simp only at h1 h2 h3 h4
+  subst h1 h2 h3 h4
+  simp [Fac.exec, Fac.step, Fac.stateDict, idealIC, At]
 
 end loops
 
